@@ -4,6 +4,8 @@ Protocol lines (driver `ofdrv_par`, see lean/OFCore/OFCore/Drv/Par.lean):
 
     par p <entries> <updates> <queries>          a Parameter, its updates, the days read
     par t <updates> <queries> <tree tokens …>    a ParameterNode / ParameterScale / Parameter tree
+    par h <entries> <ops> <queries>              a history over several Parameter objects: clone / update / read
+    par ht <ops> <queries> <tree tokens …>       the same over several trees (clones of the one declared)
 
 Dates travel as proleptic ordinals (`datetime.date.toordinal`); the adapter turns them into the ISO
 strings / `Instant`s / period strings the real API takes. Values are canonical tokens: integers,
@@ -190,7 +192,58 @@ def parse_line(line: str):
             if child not in kids or kids[child][0] != "P":
                 raise Malformed("child")
         return ("t", tree, ups, parse_queries(f[3]))
+    if len(f) == 5 and f[0] == "par" and f[1] == "h":
+        return ("h", parse_entries(f[2]), parse_ops(f[3], None), parse_queries(f[4]))
+    if len(f) >= 5 and f[0] == "par" and f[1] == "ht":
+        tree, j = parse_tree(f[4:], 0)
+        if j != len(f) - 4:
+            raise Malformed("trailing")
+        return ("ht", tree, parse_ops(f[2], tree), parse_queries(f[3]))
     raise Malformed(line[:40])
+
+
+def check_addr(tree, addr: str) -> None:
+    """the child an `ht` update addresses must be a dated parameter of the tree"""
+    if tree[0] == "P":
+        ok = addr == "-"
+    elif tree[0] == "N":
+        kids = dict(tree[1])
+        ok = addr in kids and kids[addr][0] == "P"
+    else:
+        parts = addr.split(".")
+        ok = len(parts) == 2 and parts[0].isdigit() and int(parts[0]) < len(tree[2]) and parts[1] in FIELDS
+    if not ok:
+        raise Malformed("child " + addr)
+
+
+def parse_ops(s: str, tree):
+    """[('c', src) | ('r', obj) | ('u', obj, (child, form, a, b, v))]; object indices must exist"""
+    out, n = [], 1
+    for f in s.split(";"):
+        if not f:
+            raise Malformed("op")
+        k, rest = f[0], f[1:]
+        try:
+            if k in "cr":
+                if not rest.isdigit() or int(rest) >= n:
+                    raise Malformed(f)
+                out.append((k, int(rest)))
+                n += k == "c"
+            elif k == "u":
+                i, _, u = rest.partition(":")
+                if not i.isdigit() or int(i) >= n:
+                    raise Malformed(f)
+                (upd,) = parse_updates(u, tree is not None)
+                if tree is not None:
+                    check_addr(tree, upd[0])
+                    if tree[0] == "S" and upd[4] in ("T", "F"):      # scale values are numbers
+                        raise Malformed(f)
+                out.append(("u", int(i), upd))
+            else:
+                raise Malformed(f)
+        except ValueError:
+            raise Malformed(f)
+    return out
 
 
 # --------------------------------------------------------------------------------------
@@ -291,9 +344,87 @@ def call_update(p, form: str, a: int, b, vtok: str, rs: random.Random) -> bool:
     return True
 
 
-def read_at(obj, o: int, rs: random.Random):
+# Every spelling of a date that `periods.instant` accepts (checked against the pinned tree: ISO string,
+# Instant, date, datetime, (y, m, d) tuple / list, any Period -> its start, ISO week date `YYYY-Www-D`, and when
+# the date allows it `YYYY-Www` (Mondays), `YYYY-MM` / (y, m) / month Period (first of month), `YYYY` / int /
+# (y,) / year Period (1 January)). Which date a spelling denotes is computed here with datetime only.
+SPELL_WEIGHTS = {"iso": 5, "instant": 3, "date": 3, "weekdate": 5, "week": 6, "datetime": 1, "tuple": 1, "list": 1,
+                 "period-day": 2, "period-str": 1, "period-weekday": 1, "period-unaligned": 1, "period-week": 2,
+                 "month-str": 6, "month-tuple": 2, "period-month": 3, "year-str": 6, "year-int": 6, "year-tuple": 2,
+                 "period-year": 3}
+_SPELL_CACHE: dict = {}
+
+
+def valid_spellings(o: int):
+    r = _SPELL_CACHE.get(o)
+    if r is None:
+        d = D(o)
+        names = ["iso", "instant", "date", "weekdate", "datetime", "tuple", "list", "period-day", "period-str",
+                 "period-weekday", "period-unaligned"]
+        if d.isoweekday() == 1:
+            names += ["week", "period-week"]
+        if d.day == 1:
+            names += ["month-str", "month-tuple", "period-month"]
+            if d.month == 1:
+                names += ["year-str", "year-int", "year-tuple", "period-year"]
+        r = _SPELL_CACHE[o] = (names, [SPELL_WEIGHTS[n] for n in names])
+    return r
+
+
+def spell(o: int, name: str, rs: random.Random):
     from openfisca_core import periods
-    q = rs.choice([iso(o), iso(o), D(o), periods.instant(iso(o))])
+    from openfisca_core.periods import DateUnit, Instant, Period
+    d = D(o)
+    y, m, dd = d.year, d.month, d.day
+    inst = lambda: Instant((y, m, dd))
+    n = rs.choice([1, 1, 2, 3])
+    if name == "iso":
+        return d.isoformat()
+    if name == "instant":
+        return inst()
+    if name == "date":
+        return d
+    if name == "datetime":
+        return dt.datetime(y, m, dd, rs.randrange(24), rs.randrange(60))
+    if name == "tuple":
+        return (y, m, dd)
+    if name == "list":
+        return [y, m, dd]
+    if name in ("weekdate", "week"):
+        iy, iw, iwd = d.isocalendar()
+        return f"{iy:04d}-W{iw:02d}-{iwd}" if name == "weekdate" else f"{iy:04d}-W{iw:02d}"
+    if name == "period-day":
+        return Period((DateUnit.DAY, inst(), n))
+    if name == "period-str":
+        return periods.period(f"day:{d.isoformat()}:{n}")
+    if name == "period-weekday":
+        return Period((DateUnit.WEEKDAY, inst(), n))
+    if name == "period-unaligned":
+        return Period((rs.choice([DateUnit.MONTH, DateUnit.YEAR, DateUnit.WEEK]), inst(), n))
+    if name == "period-week":
+        return Period((DateUnit.WEEK, inst(), n))
+    if name == "month-str":
+        return f"{y:04d}-{m:02d}"
+    if name == "month-tuple":
+        return rs.choice([(y, m), [y, m]])
+    if name == "period-month":
+        return rs.choice([Period((DateUnit.MONTH, inst(), n)), periods.period(f"{y:04d}-{m:02d}")])
+    if name == "year-str":
+        return f"{y:04d}"
+    if name == "year-int":
+        return y
+    if name == "year-tuple":
+        return rs.choice([(y,), [y]])
+    if name == "period-year":
+        return rs.choice([Period((DateUnit.YEAR, inst(), n)), periods.period(y)])
+    raise ValueError(name)
+
+
+def read_at(obj, o: int, rs: random.Random):
+    names, weights = valid_spellings(o)
+    forced = getattr(rs, "force_spelling", None)
+    name = forced if forced in names else rs.choices(names, weights)[0]
+    q = spell(o, name, rs)
     call = rs.random() < 0.5
     try:
         return obj(q) if call else obj.get_at_instant(q)
@@ -329,6 +460,9 @@ def impl(case: Case) -> str:
     except Malformed:
         return "BAD"
     rs = random.Random((case.payload or {}).get("style", 0))
+    rs.force_spelling = (case.payload or {}).get("spell")
+    if parsed[0] in ("h", "ht"):
+        return impl_history(parsed, rs)
     if parsed[0] == "p":
         _, entries, ups, qs = parsed
         try:
@@ -358,6 +492,49 @@ def impl(case: Case) -> str:
         ok = call_update(target, form, a, b, v, rs)
         stages.append(stage() if ok else "ERR")
     return "|".join(stages)
+
+
+def build_tree(tree, rs: random.Random):
+    from openfisca_core.parameters import Parameter, ParameterNode, ParameterScale
+    data = tree_data(tree, rs)
+    if tree[0] == "P":
+        return Parameter("n", data)
+    if tree[0] == "S":
+        return ParameterScale("n", data, None)
+    return ParameterNode("n", data=data)
+
+
+def target_of(obj, tree, addr: str, rs: random.Random):
+    """the real Parameter an `ht` update addresses"""
+    if tree[0] == "P":
+        return obj
+    if tree[0] == "N":
+        return obj.children[addr] if rs.random() < 0.5 else getattr(obj, addr)
+    i, field = addr.split(".")
+    br = obj.brackets[int(i)] if rs.random() < 0.5 else obj[int(i)]
+    return br.children[field] if rs.random() < 0.5 else getattr(br, field)
+
+
+def impl_history(parsed, rs: random.Random) -> str:
+    from openfisca_core.parameters import Parameter
+    kind, first, ops, qs = parsed
+    try:
+        objs = [Parameter("p", param_data(first, rs)) if kind == "h" else build_tree(first, rs)]
+    except Exception:
+        return "ERR"
+    out = []
+    for op in ops:
+        if op[0] == "c":
+            objs.append(objs[op[1]].clone())
+            out.append("c")
+        elif op[0] == "r":
+            o = objs[op[1]]
+            out.append(stage_p(o, qs, rs) if kind == "h" else ";".join(show_snap(read_at(o, q, rs)) for q in qs))
+        else:
+            _, i, (child, form, a, b, v) = op
+            target = objs[i] if kind == "h" else target_of(objs[i], first, child, rs)
+            out.append("u" if call_update(target, form, a, b, v, rs) else "ERR")
+    return "|".join(out)
 
 
 # --------------------------------------------------------------------------------------
@@ -390,8 +567,10 @@ def _show_rat(f: Fraction) -> str:
     return str(f.numerator) if f.denominator == 1 else f"{f.numerator}/{f.denominator}"
 
 
-def expect_scale(meta: bool, brs, q: int):
-    at = [[latest(f, q) for f in fields] for fields in brs]   # threshold, rate, amount, average_rate
+def expect_scale(meta: bool, brs, q: int, ups: dict | None = None):
+    ups = ups or {}
+    at = [[overlay(f, ups.get(f"{i}.{FIELDS[j]}", []), q) for j, f in enumerate(fields)]
+          for i, fields in enumerate(brs)]                     # threshold, rate, amount, average_rate
     if meta:
         kind, col = "single_amount", 2
     elif any(b[2] != "none" for b in at):
@@ -407,17 +586,18 @@ def expect_scale(meta: bool, brs, q: int):
     return ("scale", kind, [(_show_rat(t), _show_rat(rows[t])) for t in sorted(rows)])
 
 
-def expect_snap(tree, ups_by_child, q: int):
-    """('val', tok) | ('scale', kind, rows) | ('node', [(name, snap)]) | None"""
+def expect_snap(tree, ups: dict, q: int):
+    """('val', tok) | ('scale', kind, rows) | ('node', [(name, snap)]) | None.
+    `ups`: the updates this object received, per address ('-' = the parameter itself, a child name of the
+    top node, 'i.field' of a top-level scale), each a list of (a, b|None, value token)"""
     if tree[0] == "P":
-        v = overlay(tree[1], ups_by_child, q) if isinstance(ups_by_child, list) else latest(tree[1], q)
+        v = overlay(tree[1], ups.get("-", []), q)
         return None if v == "none" else ("val", v)
     if tree[0] == "S":
-        return expect_scale(tree[1], tree[2], q)
+        return expect_scale(tree[1], tree[2], q, ups)
     kids = []
     for name, sub in tree[1]:
-        ups = ups_by_child.get(name, []) if isinstance(ups_by_child, dict) else None
-        s = expect_snap(sub, ups if sub[0] == "P" and ups is not None else None, q)
+        s = expect_snap(sub, {"-": ups.get(name, [])} if sub[0] == "P" else {}, q)
         if s is not None:                      # exactly the members defined at q
             kids.append((name, s))
     return ("node", kids)
@@ -495,6 +675,8 @@ def oracle(case: Case, out: str):
     if out == "ERR" or out == "BAD":
         return ("construct", "building the parameter from well-formed data raised")
     stages = out.split("|")
+    if parsed[0] in ("h", "ht"):
+        return oracle_history(parsed, stages)
     if parsed[0] == "p":
         _, entries, ups, qs = parsed
         if len(stages) != len(ups) + 1:
@@ -541,18 +723,64 @@ def oracle(case: Case, out: str):
         if len(snaps) != len(qs):
             return ("shape", "wrong number of snapshots")
         for q, s in zip(qs, snaps):
-            if tree[0] == "P":
-                want = expect_snap(tree, [], q)
-            else:
-                want = expect_snap(tree, applied, q)
+            want = expect_snap(tree, applied, q)
             r = diff_snap(want, parse_snap(s))
             if r:
                 return (r[0], f"stage {i}, {iso(q)}: {r[1]}")
     return None
 
 
+def oracle_history(parsed, items):
+    """Each object reads what its OWN history says: its declared entries overlaid by the updates addressed
+    to it (and, for a clone, those its source had received when it was cloned) — whatever was done to, or
+    read from, the other objects in between."""
+    kind, first, ops, qs = parsed
+    if len(items) != len(ops):
+        return ("shape", "wrong number of answers")
+    own: list = [{}]                       # per object: address -> [(a, b, value token)]
+    for k, (op, it) in enumerate(zip(ops, items), 1):
+        if op[0] == "c":
+            own.append({a: list(u) for a, u in own[op[1]].items()})
+        elif op[0] == "u":
+            _, i, (child, form, a, b, v) = op
+            if it == "ERR":
+                return ("update-raised", f"op #{k}: update of object {i} ({form} {iso(a)}..{iso(b) if b is not None else 'open'}) raised")
+            own[i].setdefault(child if kind == "ht" else "-", []).append((a, b, v))
+        else:
+            i = op[1]
+            pre = "clone:" if len(own) > 1 else ""
+            what = f"op #{k}: object {i}" + (" (a clone)" if i > 0 else " (the original)") + f" of {len(own)}"
+            if kind == "h":
+                r = _order(it, what)
+                if r:
+                    return r
+                reads = it.split("@")[1].split(",")
+                if len(reads) != len(qs):
+                    return ("shape", "wrong number of reads")
+                mine = own[i].get("-", [])
+                for q, r in zip(qs, reads):
+                    w = overlay(first, mine, q)
+                    if r != w:
+                        cov = [u for u in mine if u[0] <= q and (u[1] is None or q <= u[1])]
+                        sig = "update-inside" if cov else "update-outside" if mine else "get-latest"
+                        return (pre + sig, f"{what} reads {r} at {iso(q)}; its own entries and the {len(mine)} update(s) "
+                                           f"addressed to it give {w}")
+            else:
+                snaps = it.split(";")
+                if len(snaps) != len(qs):
+                    return ("shape", "wrong number of snapshots")
+                for q, s in zip(qs, snaps):
+                    r = diff_snap(expect_snap(first, own[i], q), parse_snap(s))
+                    if r:
+                        return (pre + r[0], f"{what}, {iso(q)}: {r[1]}")
+    return None
+
+
 def nontrivial(case: Case, out: str) -> bool:
     stages = out.split("|")
+    if case.line.startswith("par h"):
+        reads = {s for s in stages if s not in ("c", "u", "ERR", "BAD")}
+        return len(reads) > 1
     if case.line.startswith("par p"):
         reads = [s.split("@")[1] for s in stages if "@" in s]
         if len(reads) >= 2:
@@ -566,8 +794,11 @@ def nontrivial(case: Case, out: str) -> bool:
 # --------------------------------------------------------------------------------------
 # generation
 
+# windows start here; several straddle a New Year where the ISO year differs from the civil year (2020-W53 runs to
+# 2021-01-03, 2015-W53 to 2016-01-03, 2018-12-31 and 2024-12-30 belong to W01 of the next ISO year, 2026-W53)
 BASES = [dt.date(2019, 12, 10), dt.date(2020, 1, 25), dt.date(2021, 1, 20), dt.date(2023, 12, 31), dt.date(2024, 2, 1),
-         dt.date(1999, 11, 30), dt.date(2100, 2, 1), dt.date(999, 12, 1), dt.date(2016, 5, 2), dt.date(2000, 2, 29)]
+         dt.date(1999, 11, 30), dt.date(2100, 2, 1), dt.date(999, 12, 1), dt.date(2016, 5, 2), dt.date(2000, 2, 29),
+         dt.date(2020, 12, 8), dt.date(2015, 12, 14), dt.date(2018, 12, 20), dt.date(2024, 12, 16), dt.date(2026, 12, 20)]
 VALUE_POOL = ["0", "1", "2", "3", "5", "7", "10", "12", "100", "-4", "1/2", "3/4", "7/2", "-5/8", "25/2", "T", "F"]
 
 
@@ -721,14 +952,124 @@ def fmt_tree(tree) -> str:
     return f"N {len(tree[1])} " + " ".join(f"{k} {fmt_tree(s)}" for k, s in tree[1])
 
 
-def mk_param(entries, ups, qs: str, style: int, claimed=True, tags=()) -> Case:
-    return Case(line=f"par p {fmt_entries(entries)} {fmt_updates(ups)} {qs}", payload={"style": style},
+def _payload(style: int, spell=None) -> dict:
+    return {"style": style} if spell is None else {"style": style, "spell": spell}
+
+
+def mk_param(entries, ups, qs: str, style: int, claimed=True, tags=(), spell=None) -> Case:
+    return Case(line=f"par p {fmt_entries(entries)} {fmt_updates(ups)} {qs}", payload=_payload(style, spell),
                 claimed=claimed, tags=("param",) + tuple(tags))
 
 
-def mk_tree(tree, ups, qs: str, style: int, claimed=True, tags=()) -> Case:
-    return Case(line=f"par t {fmt_updates(ups)} {qs} {fmt_tree(tree)}".rstrip(), payload={"style": style},
+def mk_tree(tree, ups, qs: str, style: int, claimed=True, tags=(), spell=None) -> Case:
+    return Case(line=f"par t {fmt_updates(ups)} {qs} {fmt_tree(tree)}".rstrip(), payload=_payload(style, spell),
                 claimed=claimed, tags=tuple(tags))
+
+
+def fmt_ops(ops) -> str:
+    return ";".join(f"{op[0]}{op[1]}" if op[0] in "cr" else f"u{op[1]}:" + fmt_updates([op[2]]) for op in ops)
+
+
+def mk_hist(entries, ops, qs: str, style: int, claimed=True, tags=(), spell=None) -> Case:
+    return Case(line=f"par h {fmt_entries(entries)} {fmt_ops(ops)} {qs}", payload=_payload(style, spell),
+                claimed=claimed, tags=("history",) + tuple(tags))
+
+
+def mk_thist(tree, ops, qs: str, style: int, claimed=True, tags=(), spell=None) -> Case:
+    return Case(line=f"par ht {fmt_ops(ops)} {qs} {fmt_tree(tree)}", payload=_payload(style, spell),
+                claimed=claimed, tags=("tree-history",) + tuple(tags))
+
+
+def gen_ops(rng: random.Random, lo: int, hi: int, addresses):
+    """A history over several objects. `addresses(rng)` -> (addr, dates, value pool | None) of a parameter
+    that can be updated in any object (all objects are clones of one another, so they share the addresses).
+    Reads are placed before updates, after them on the updated object and on the others in either order, and
+    on every object at the end."""
+    ops, tags, claimed = [], [], True
+    dates: list = [{}]                       # per object: addr -> dates added by updates
+    if rng.random() < 0.5:
+        ops.append(("r", 0))
+    for step in range(rng.randint(2, 6)):
+        r = rng.random()
+        if (step == 0 and r < 0.75) or (r < 0.2 and len(dates) < 4):
+            src = rng.randrange(len(dates))
+            ops.append(("c", src))
+            dates.append({k: list(v) for k, v in dates[src].items()})
+            if rng.random() < 0.3:
+                ops.append(("r", rng.randrange(len(dates))))
+            continue
+        i = rng.randrange(len(dates))
+        if rng.random() < 0.45:                                   # something is read before the update
+            ops.append(("r", rng.randrange(len(dates))))
+        addr, base_dates, pool = addresses(rng)
+        ups, t, c = gen_updates(rng, base_dates + dates[i].get(addr, []), lo, hi, 1, child=addr)
+        child, form, a, b, v = ups[0]
+        if pool is not None and v != "null":
+            v = rng.choice(pool)
+        ops.append(("u", i, (child, form, a, b, v)))
+        tags += t
+        claimed = claimed and c
+        if form in VALID_FORMS:
+            dates[i].setdefault(addr, []).extend([a] if b is None else [a, b + 1])
+        order = list(range(len(dates)))
+        rng.shuffle(order)
+        if rng.random() < 0.7 and len(order) > 1:                 # the updated object and another one, either order
+            other = rng.choice([j for j in order if j != i])
+            pair = [i, other]
+            rng.shuffle(pair)
+            order = pair
+        for j in order[:rng.choice([1, 2, 2, 3])]:
+            ops.append(("r", j))
+    order = list(range(len(dates)))
+    rng.shuffle(order)
+    ops += [("r", j) for j in order]
+    tags.append(f"objects={len(dates)}")
+    return ops, tags, claimed
+
+
+def gen_hist_case(rng: random.Random) -> Case:
+    lo = rng.choice(BASES).toordinal()
+    hi = lo + 39
+    entries = gen_history(rng, lo, hi)
+    ds = [d for d, t in entries if t != "expected"]
+    ops, tags, claimed = gen_ops(rng, lo, hi, lambda r: (None, ds, None))
+    return mk_hist(entries, ops, f"{lo - 2}..{hi + 2}", rng.getrandbits(30), claimed, tags)
+
+
+def gen_thist_case(rng: random.Random) -> Case:
+    lo = rng.choice(BASES).toordinal()
+    hi = lo + 29
+    r = rng.random()
+    if r < 0.6:
+        while True:
+            tree = gen_node(rng, lo, hi)
+            params = [(k, s) for k, s in tree[1] if s[0] == "P"]
+            if params:
+                break
+
+        def addresses(r2):
+            k, sub = r2.choice(params)
+            return k, [d for d, t in sub[1] if t != "expected"], None
+        kind = "node"
+    elif r < 0.85:
+        while True:
+            tree, _fl = gen_scale(rng, lo, hi)
+            fields = [(f"{i}.{FIELDS[j]}", f, (THRESHOLDS, RATES, AMOUNTS, RATES)[j])
+                      for i, br in enumerate(tree[2]) for j, f in enumerate(br) if f]
+            if fields:
+                break
+
+        def addresses(r2):
+            addr, f, pool = r2.choice(fields)
+            return addr, [d for d, t in f if t != "expected"], pool
+        kind = "scale"
+    else:
+        tree = ("P", gen_history(rng, lo, hi, 4))
+        ds = [d for d, t in tree[1] if t != "expected"]
+        addresses = lambda r2: ("-", ds, None)
+        kind = "param"
+    ops, tags, claimed = gen_ops(rng, lo, hi, addresses)
+    return mk_thist(tree, ops, f"{lo - 2}..{hi + 2}", rng.getrandbits(30), claimed, tags + ["top:" + kind])
 
 
 def gen_param_case(rng: random.Random) -> Case:
@@ -817,10 +1158,13 @@ MALFORMED = [
 
 
 def generate(rng: random.Random, tier: str):
-    n_param, n_node, n_scale = (50000, 5000, 5000) if tier == "quick" else (200000, 20000, 20000)
+    n_param, n_node, n_scale, n_hist, n_thist = ((24000, 3000, 3000, 7000, 2500) if tier == "quick"
+                                                 else (160000, 20000, 20000, 40000, 15000))
     out = [gen_param_case(rng) for _ in range(n_param)]
     out += [gen_node_case(rng) for _ in range(n_node)]
     out += [gen_scale_case(rng) for _ in range(n_scale)]
+    out += [gen_hist_case(rng) for _ in range(n_hist)]
+    out += [gen_thist_case(rng) for _ in range(n_thist)]
     out += [Case(line=l, payload={"style": 0}, claimed=False, tags=("malformed",)) for l in MALFORMED]
     return out
 
@@ -875,6 +1219,39 @@ def corpus():
     out.append(mk_tree(tree, [("a", "range", o + 11, o + 12, "null"), ("b", "open", o + 13, None, "4")], f"{o - 1}..{o + 15}", 10,
                        tags=("corpus", "node")))
     out.append(mk_tree(tree[1][3][1], [], f"{o - 1}..{o + 8}", 11, tags=("corpus", "scale")))
+    # a parameter and its clone are independent objects (seeded change C06-3: a memo shared through clone())
+    O_ = lambda y, m, d: dt.date(y, m, d).toordinal()
+    hist = [(O_(2010, 1, 1), "1"), (O_(2015, 1, 1), "2"), (O_(2020, 1, 1), "3")]
+    days = ",".join(str(O_(*t)) for t in [(2009, 12, 31), (2010, 1, 1), (2015, 12, 31), (2016, 1, 1), (2016, 6, 15),
+                                           (2017, 12, 31), (2018, 1, 1), (2021, 1, 1)])
+    u = (None, "range", O_(2016, 1, 1), O_(2017, 12, 31), "9")
+    for k, order in enumerate([[("r", 0), ("r", 1)], [("r", 1), ("r", 0)]]):
+        for spell in ("iso", "instant"):
+            out.append(mk_hist(hist, [("c", 0), ("u", 1, u)] + order, days, 20 + k, tags=("corpus", "clone"), spell=spell))
+    out.append(mk_hist(hist, [("r", 0), ("c", 0), ("r", 1), ("u", 0, (None, "period", O_(2016, 1, 1), O_(2016, 12, 31), "null")),
+                              ("r", 1), ("r", 0), ("c", 0), ("u", 2, (None, "open", O_(2016, 6, 1), None, "5")), ("r", 0), ("r", 2), ("r", 1)],
+                       days, 22, tags=("corpus", "clone"), spell="iso"))
+    grp = ("N", [("rate", ("P", hist)), ("other", ("P", [(O_(2000, 1, 1), "5")]))])
+    for order in ([("r", 0), ("r", 1)], [("r", 1), ("r", 0)]):
+        out.append(mk_thist(grp, [("c", 0), ("u", 1, ("rate", "open", O_(2016, 1, 1), None, "null"))] + order, days, 23,
+                            tags=("corpus", "clone"), spell="iso"))
+    sc = ("S", False, [([(O_(2010, 1, 1), "0")], [(O_(2010, 1, 1), "1/4")], [], []),
+                       ([(O_(2010, 1, 1), "10")], [(O_(2010, 1, 1), "1/2")], [], [])])
+    out.append(mk_thist(sc, [("c", 0), ("u", 1, ("1.rate", "range", O_(2016, 1, 1), O_(2017, 12, 31), "3/4")), ("r", 0), ("r", 1),
+                             ("u", 0, ("0.threshold", "open", O_(2016, 6, 1), None, "null")), ("r", 1), ("r", 0)], days, 24,
+                        tags=("corpus", "clone"), spell="iso"))
+    # every accepted spelling of a query date denotes the same date (seeded change C06-4: ISO week dates)
+    wk = [(O_(2019, 1, 1), "1"), (O_(2020, 3, 1), "2"), (O_(2020, 9, 1), "null"), (O_(2021, 1, 1), "4")]
+    wdays = [dt.date.fromisocalendar(*t).toordinal() for t in [(2018, 52, 7), (2019, 1, 1), (2019, 1, 2), (2020, 9, 7), (2020, 10, 1),
+                                                               (2020, 40, 3), (2020, 53, 4), (2020, 53, 5), (2021, 20, 1)]]
+    for spell in ("weekdate", "week", "month-str", "year-str", "year-int", "period-month", "period-year", "date", "tuple"):
+        out.append(mk_param(wk, [(None, "period", O_(2020, 5, 1), O_(2020, 5, 31), "7")],
+                            ",".join(map(str, wdays)) + f",{O_(2020, 4, 27)}..{O_(2020, 6, 2)},{O_(2020, 12, 25)}..{O_(2021, 1, 5)}",
+                            30, tags=("corpus", "spelling"), spell=spell))
+    grp2 = ("N", [("rate", ("P", wk)), ("late", ("P", [(O_(2021, 1, 1), "10")])),
+                  ("early", ("P", [(O_(2000, 1, 1), "5"), (O_(2020, 6, 1), "null")]))])
+    for spell in ("weekdate", "week"):
+        out.append(mk_tree(grp2, [], f"{O_(2020, 12, 25)}..{O_(2021, 1, 5)},{O_(2020, 3, 2)}", 31, tags=("corpus", "spelling"), spell=spell))
     return out
 
 
@@ -914,7 +1291,16 @@ PROP = Prop(
           "forms period= (day/weekday/week/month/year strings or Period objects), start+stop, start only, with boundaries drawn "
           "from existing entry dates +-1 (equal / adjacent), enclosing, enclosed, before the first, after the last, month-aligned, "
           "single-day and random ranges, 20% null values; after construction and after each update the value is read at every day "
-          "of the window +-2 (ISO string, date or Instant; call or get_at_instant) and `values_list` is listed. `par t`: "
+          "of the window +-2 and `values_list` is listed. Every read passes the query date in a spelling "
+          "drawn at random among those `periods.instant` accepts for that date (ISO string, Instant, date, datetime, tuple/list, "
+          "Period of any unit -> its start, ISO week date `YYYY-Www-D`, `YYYY-Www` on Mondays, `YYYY-MM` / (y, m) / month Period on "
+          "the first of a month, `YYYY` / int / (y,) / year Period on 1 January; 5 of the 15 windows straddle a New Year where the "
+          "ISO year differs from the civil year, incl. week 53), through `__call__` or `get_at_instant`; the spelling is "
+          "implementation-side glue: the model always receives the canonical date (ordinal). `par h` / `par ht`: histories over "
+          "several objects: `clone()` of a Parameter / ParameterNode / ParameterScale creates a further object, updates and reads "
+          "address any object in any interleaving (read before an update, the updated object and another one read in either "
+          "order, every object read at the end); each object must read what its own entries and the updates addressed to it say. "
+          "`par t`: "
           "ParameterNode trees of 1-5 children (parameters, sub-nodes, scales) with 0-2 updates of child parameters, and "
           "ParameterScale objects of 1-4 brackets with independently dated threshold / rate / amount / average_rate, read at "
           "every day of a 30-day window +-2. A parameter case is non-trivial when an update changes at least one read (or, "
